@@ -61,7 +61,9 @@ Record view := mkview {
   vlabel : phase;      (* LockedPhase(label) and the key under which it sits in _streams *)
   vcell : nat;         (* its _imol.data is this row object *)
   vtc : nat;           (* its _thermal_condition object *)
-  vin : bool           (* still an entry of the parent's _streams dict *)
+  vin : bool;          (* still an entry of the parent's _streams dict *)
+  vmass : option nat   (* its _imol._data_cache['mass'], once filled: the row object (dict) the cached
+                          mass-basis indexer wraps *)
 }.
 
 (* StreamData: imol.copy(), T, P, phases *)
@@ -73,6 +75,7 @@ Record sdata := mksd {
 
 Record st := mkst {
   nch : nat;                  (* number of chemicals *)
+  mws : vec;                  (* chemicals.MW *)
   heap : list vec;
   tcs : list (Q * Q);
   par : repr;
@@ -82,18 +85,18 @@ Record st := mkst {
   saved : list sdata
 }.
 
-Definition set_heap s h := mkst (nch s) h (tcs s) (par s) (ptc s) (views s) (lastret s) (saved s).
-Definition set_tcs s t := mkst (nch s) (heap s) t (par s) (ptc s) (views s) (lastret s) (saved s).
-Definition set_par s p := mkst (nch s) (heap s) (tcs s) p (ptc s) (views s) (lastret s) (saved s).
-Definition set_views s v := mkst (nch s) (heap s) (tcs s) (par s) (ptc s) v (lastret s) (saved s).
-Definition set_lastret s k := mkst (nch s) (heap s) (tcs s) (par s) (ptc s) (views s) k (saved s).
-Definition set_saved s d := mkst (nch s) (heap s) (tcs s) (par s) (ptc s) (views s) (lastret s) d.
+Definition set_heap s h := mkst (nch s) (mws s) h (tcs s) (par s) (ptc s) (views s) (lastret s) (saved s).
+Definition set_tcs s t := mkst (nch s) (mws s) (heap s) t (par s) (ptc s) (views s) (lastret s) (saved s).
+Definition set_par s p := mkst (nch s) (mws s) (heap s) (tcs s) p (ptc s) (views s) (lastret s) (saved s).
+Definition set_views s v := mkst (nch s) (mws s) (heap s) (tcs s) (par s) (ptc s) v (lastret s) (saved s).
+Definition set_lastret s k := mkst (nch s) (mws s) (heap s) (tcs s) (par s) (ptc s) (views s) k (saved s).
+Definition set_saved s d := mkst (nch s) (mws s) (heap s) (tcs s) (par s) (ptc s) (views s) (lastret s) d.
 
 Definition cellv (h : list vec) (c : nat) : vec := nth c h [].
 Definition any_nz (v : vec) : bool := existsb (fun x => negb (qzerob x)) v.
 Definition tc_get (t : list (Q * Q)) (i : nat) : Q * Q := nth i t (0, 0).
 
-Definition uncache (v : view) : view := mkview (vlabel v) (vcell v) (vtc v) false.
+Definition uncache (v : view) : view := mkview (vlabel v) (vcell v) (vtc v) false (vmass v).
 Definition clear_cache (s : st) : st := set_views s (map uncache (views s)).   (* _streams = {} / .clear() *)
 
 (* ---------- indexer conversions ---------- *)
@@ -133,12 +136,13 @@ Definition sum_rows (n : nat) (h : list vec) (r : rmap) : vec :=
   fold_left (fun acc p => match r p with Some c => vadd acc (cellv h c) | None => acc end)
             all_phases (vzero n).
 
-(* the fix of the phases setter re-attaches the cached sub-streams to the new rows
-   (sub-streams whose label has no row any more are dropped from _streams) *)
+(* the phases setter re-attaches the cached sub-streams to the new rows by giving them a NEW indexer
+   object (streams[phase]._imol = imol.get_phase(phase)), whose _data_cache is empty; sub-streams whose
+   label has no row any more are dropped from _streams and keep their old indexer *)
 Definition rebind (r : rmap) (v : view) : view :=
   if vin v then
     match rlookup r (vlabel v) with
-    | Some c => mkview (vlabel v) c (vtc v) true
+    | Some c => mkview (vlabel v) c (vtc v) true None
     | None => uncache v
     end
   else v.
@@ -270,7 +274,7 @@ Definition get_view (s : st) (l : phase) : res st :=
       | Some i => Ok (set_lastret s (S i))
       | None =>
           match rlookup r l with
-          | Some c => Ok (set_lastret (set_views s (views s ++ [mkview l c (ptc s) true]))
+          | Some c => Ok (set_lastret (set_views s (views s ++ [mkview l c (ptc s) true None]))
                                       (S (length (views s))))
           | None => Err EUndefPhase
           end
@@ -282,6 +286,25 @@ Definition write_cell (h : list vec) (c j : nat) (x : Q) : list vec := upd h c (
 Definition write_view (s : st) (i j : nat) (x : Q) : res st :=
   match nth_error (views s) i with
   | Some v => Ok (set_heap s (write_cell (heap s) (vcell v) j x))
+  | None => Err EIndex
+  end.
+
+(* view.imass : by_mass() builds the mass-basis indexer over the row's dict on first use and caches it in
+   the view's indexer object *)
+Definition mass_cell (v : view) : nat := match vmass v with Some c => c | None => vcell v end.
+Definition touch_mass (v : view) : view :=
+  mkview (vlabel v) (vcell v) (vtc v) (vin v) (Some (mass_cell v)).
+Definition view_mass_touch (s : st) (i : nat) : res st :=
+  match nth_error (views s) i with
+  | Some v => Ok (set_views s (upd (views s) i (touch_mass v)))
+  | None => Err EIndex
+  end.
+(* view.imass[chemical j] = x : MassFlowDict stores x / MW[j] in the wrapped dict *)
+Definition view_mass_write (s : st) (i j : nat) (x : Q) : res st :=
+  match nth_error (views s) i with
+  | Some v =>
+      Ok (set_heap (set_views s (upd (views s) i (touch_mass v)))
+                   (write_cell (heap s) (mass_cell v) j (x / nthq (mws s) j)))
   | None => Err EIndex
   end.
 
@@ -359,6 +382,8 @@ Inductive op :=
 | OSetT (x : Q) | OSetP (x : Q)                 (* s.T = x / s.P = x *)
 | OViewSetT (i : nat) (x : Q) | OViewSetP (i : nat) (x : Q)
 | OViewSetPhase (i : nat) (l : phase)           (* views[i].phase = l : the phase is locked *)
+| OViewMassTouch (i : nat)                      (* views[i].imass[...] read: fills the view's mass cache *)
+| OViewMassWrite (i j : nat) (x : Q)            (* views[i].imass[chemical j] = x *)
 | OSave                                         (* saved.append(s.get_data()) *)
 | ORestore (k : nat).                           (* s.set_data(saved[k]) *)
 
@@ -383,6 +408,8 @@ Definition step (s : st) (o : op) : res st :=
       | Some v => if phase_eqb (vlabel v) l then Ok s else Err EOther
       | None => Err EIndex
       end
+  | OViewMassTouch i => view_mass_touch s i
+  | OViewMassWrite i j x => view_mass_write s i j x
   | OSave => Ok (set_saved s (saved s ++ [snapshot s]))
   | ORestore k =>
       match nth_error (saved s) k with Some d => restore s d | None => Err EIndex end
@@ -408,7 +435,8 @@ Definition P_of (s : st) : Q := snd (tc_get (tcs s) (ptc s)).
 Definition total (s : st) (j : nat) : Q :=
   fold_right (fun p acc => nthq (flow s p) j + acc) 0 all_phases.
 
-Record vobs := mkvobs { vo_label : phase; vo_flow : vec; vo_T : Q; vo_P : Q; vo_in : bool }.
+Record vobs := mkvobs { vo_label : phase; vo_flow : vec; vo_T : Q; vo_P : Q; vo_in : bool;
+                        vo_mass : option vec (* what the cached mass indexer reads, when the cache is filled *) }.
 Record obs := mkobs {
   o_multi : bool; o_phases : list phase; o_flows : list vec; o_T : Q; o_P : Q;
   o_views : list vobs; o_ret : nat; o_saved : nat
@@ -417,13 +445,18 @@ Record obs := mkobs {
 Definition observe (s : st) : obs :=
   mkobs (is_multi s) (phases_of s) (map (flow s) (phases_of s)) (T_of s) (P_of s)
         (map (fun v => mkvobs (vlabel v) (cellv (heap s) (vcell v))
-                              (fst (tc_get (tcs s) (vtc v))) (snd (tc_get (tcs s) (vtc v))) (vin v))
+                              (fst (tc_get (tcs s) (vtc v))) (snd (tc_get (tcs s) (vtc v))) (vin v)
+                              (match vmass v with
+                               | Some c => Some (vmul (cellv (heap s) c) (mws s))
+                               | None => None
+                               end))
              (views s))
         (lastret s) (length (saved s)).
 
 Definition vobs_eqb (a b : vobs) : bool :=
   phase_eqb (vo_label a) (vo_label b) && vapproxb (vo_flow a) (vo_flow b) &&
-  qapproxb (vo_T a) (vo_T b) && qapproxb (vo_P a) (vo_P b) && Bool.eqb (vo_in a) (vo_in b).
+  qapproxb (vo_T a) (vo_T b) && qapproxb (vo_P a) (vo_P b) && Bool.eqb (vo_in a) (vo_in b) &&
+  opt_eqb vapproxb (vo_mass a) (vo_mass b).
 Definition obs_eqb (a b : obs) : bool :=
   Bool.eqb (o_multi a) (o_multi b) && list_eqb phase_eqb (o_phases a) (o_phases b) &&
   list_eqb vapproxb (o_flows a) (o_flows b) && qapproxb (o_T a) (o_T b) && qapproxb (o_P a) (o_P b) &&
@@ -446,14 +479,14 @@ Definition trace_eqb (s : st) (ops : list op) (expect : list obs) (e : option er
   list_eqb obs_eqb l expect && opt_eqb err_eqb e' e.
 
 (* ---------- initial states ---------- *)
-Definition init_single (n : nat) (p : phase) (v : vec) (T P : Q) : st :=
-  mkst n [v] [(T, P)] (Single p 0) 0 [] 0 [].
+Definition init_single (n : nat) (mw : vec) (p : phase) (v : vec) (T P : Q) : st :=
+  mkst n mw [v] [(T, P)] (Single p 0) 0 [] 0 [].
 
 Fixpoint init_rows (rows : list (phase * vec)) (h : list vec) (r : rmap) : list vec * rmap :=
   match rows with
   | [] => (h, r)
   | (p, v) :: rows' => init_rows rows' (h ++ [v]) (fun q => if phase_eqb q p then Some (length h) else r q)
   end.
-Definition init_multi (n : nat) (rows : list (phase * vec)) (T P : Q) : st :=
+Definition init_multi (n : nat) (mw : vec) (rows : list (phase * vec)) (T P : Q) : st :=
   let '(h, r) := init_rows rows [] (fun _ => None) in
-  mkst n h [(T, P)] (Multi r) 0 [] 0 [].
+  mkst n mw h [(T, P)] (Multi r) 0 [] 0 [].
